@@ -52,6 +52,12 @@ class E(enum.Enum):
 class GD(typing.Generic[T]):
     pass
 import re
+IntList = typing.TypeAliasType("IntList", list[int])
+Tags = typing.NewType("Tags", list[str])
+Handlers = typing.TypeAliasType("Handlers", dict[str, typing.Callable[[int], str]])
+IntBox = typing.TypeAliasType("IntBox", G[int])
+MaybeDC = typing.TypeAliasType("MaybeDC", typing.Optional[DC])
+DCId = typing.NewType("DCId", DC)
 @dataclasses.dataclass
 class CV:
     a: int
@@ -65,7 +71,8 @@ class DCall:
 LEAVES = ["int", "str", "typing.Any", "object", "list", "dict", "tuple", "set", "frozenset", "typing.List", "typing.Dict",
           "typing.Tuple", "T", "B", "Cn", "typing.Callable[[int], str]", "typing.Callable[..., typing.Any]",
           "collections.abc.Callable", "type[int]", "typing.Type[DC]", "G", "G[int]", "NoHints", "DC", "E", "None",
-          "typing.Literal[1, 'a']", "datetime.datetime", "decimal.Decimal", "GD", "GD[str]", "CV", "DCall", "re.Pattern[str]", "re.Pattern"]
+          "typing.Literal[1, 'a']", "datetime.datetime", "decimal.Decimal", "GD", "GD[str]", "CV", "DCall", "re.Pattern[str]", "re.Pattern",
+          "IntList", "Tags", "Handlers", "IntBox", "MaybeDC", "DCId"]
 UNARY = ["list[{0}]", "typing.List[{0}]", "tuple[{0}, ...]", "dict[str, {0}]", "typing.Optional[{0}]", "typing.Sequence[{0}]",
          "collections.abc.Mapping[str, {0}]", "frozenset[{0}]", "G[{0}]"]
 BINARY = ["tuple[{0}, {1}]", "typing.Union[{0}, {1}]", "dict[{0}, {1}]"]
@@ -78,10 +85,13 @@ def annotations(ctx):
     r = ctx.rng
     d1 = list(LEAVES)
     d2 = [u.format(x) for u in UNARY for x in LEAVES] + [b.format(x, y) for b in BINARY for x in LEAVES for y in LEAVES]
-    out = d1 + d2 + ["tuple[()]", "tuple[tuple[int, ...], tuple[str, ...]]", "tuple[typing.Any, ...]", "list[T]", "dict[str, T]"]
+    # the same member used twice in one annotation, one use below another anonymous type (named wrappers are then cut by reference)
+    reuse = [p.format(x) for x in LEAVES for p in ("tuple[typing.Optional[{0}], {0}]", "tuple[list[{0}], {0}]", "tuple[{0}, typing.Optional[{0}]]",
+                                                   "dict[str, tuple[{0}, list[{0}]]]")]
+    out = d1 + d2 + reuse + ["tuple[()]", "tuple[tuple[int, ...], tuple[str, ...]]", "tuple[typing.Any, ...]", "list[T]", "dict[str, T]"]
     if ctx.tier == "quick" and ctx.scale == 1.0:
         r.shuffle(d2)
-        out = d1 + d2[:700] + out[len(d1) + len(d2):]
+        out = d1 + d2[:700] + out[len(d1) + len(d2):]     # (keeps the `reuse` family and the fixed extras)
     n3 = ctx.n(300, 6000)
     for _ in range(n3):
         if r.random() < 0.6:
